@@ -58,6 +58,8 @@ func c17Zoo() []zooEntry {
 		{"whitespace-strings", []c17Elem{{A: 1, S: "a b"}, {A: 2, S: "a  b"}, {A: 3, S: "a\tb"}, {A: 4, S: "a b "}}},
 		{"[2]int", [2]int{1, 2}}, {"[2]map", [2]map[string]interface{}{{"A": 1, "s": "a"}, {"A": 2}}}, {"[2]*struct", [2]*c17Elem{{A: 1, S: "a"}, {A: 3}}}, {"[1]interface{}", [1]interface{}{c17Elem{A: 1, S: "a"}}},
 		{"aliased-pointers", c17Aliased()}, {"aliased-pointers-map", c17AliasedMap()},
+		{"shared-backing-slices", c17SharedBacking()}, {"shared-backing-slices-map", c17SharedBackingMap()}, {"shared-backing-structs", c17SharedStructs()},
+		{"print-twin-paths", c17Twins()}, {"print-twin-paths-map", c17TwinsMap()},
 		{"empty-with-capacity", make([]c17Elem, 0, 4)}, {"empty-named-slice", c17Slice{}}, {"nil-named-map", c17Map(nil)},
 	}
 }
@@ -81,9 +83,54 @@ func c17AliasedMap() map[string]interface{} {
 	return map[string]interface{}{"outer": o, "inner": &o.Inner, "other": &c17Outer{A: 1}}
 }
 
+// sub-slices of ONE backing array (same start address, different lengths;
+// different starts): an outcome remembered per address would confuse them.
+func c17SharedBacking() [][]int {
+	x := []int{1, 2, 3, 4}
+	return [][]int{x[:3], x[:1], x[:2], x[:0], x[1:3], x[:4], x[:3:3]}
+}
+
+func c17SharedBackingMap() map[string][]int {
+	x := []int{1, 2, 3, 4}
+	return map[string][]int{"a": x[:3], "b": x[:1], "c": x[:2], "d": x[1:], "e": x[:4]}
+}
+
+// the L lists of the elements share one backing array
+func c17SharedStructs() []c17Elem {
+	x := []int{1, 1, 2, 3}
+	return []c17Elem{{A: 1, S: "a", L: x[:1]}, {A: 1, S: "a", L: x[:0]}, {A: 1, S: "a", L: x[:3]}, {A: 1, S: "a", L: x[1:2]}, {A: 1, S: "a", L: x[2:]}}
+}
+
+// elements in which two DIFFERENT paths print the same when their parts are
+// joined (a["b.c"] / a.b.c, "/a~1b/c" / "/a/b/c"), with every combination of
+// values: clauses identified by a printed selector would be merged.
+func c17TwinElem(v1, v2, v3 int) map[string]interface{} {
+	return map[string]interface{}{"a": map[string]interface{}{"b.c": v1, "b": map[string]interface{}{"c": v2}}, "a/b": map[string]interface{}{"c": v3}, "A": v1}
+}
+
+func c17Twins() []interface{} {
+	var l []interface{}
+	for m := 0; m < 8; m++ {
+		l = append(l, c17TwinElem(1+m&1, 1+(m>>1)&1, 1+(m>>2)&1))
+	}
+	return l
+}
+
+func c17TwinsMap() map[string]interface{} {
+	out := map[string]interface{}{}
+	for m := 0; m < 8; m++ {
+		out[fmt.Sprintf("e%d", m)] = c17TwinElem(1+m&1, 1+(m>>1)&1, 1+(m>>2)&1)
+	}
+	return out
+}
+
 var c17ZooExprs = []string{`A == 1`, `A != 1`, `A == 2 or s == "a"`, `not (A == 1)`, `s == "a"`, `s != ""`, `L is empty`, `L is not empty`, `1 in L`, `A == 1 and L is empty`, `A == x`, `s matches "^[ab]$"`,
 	`any L as v { v == 1 }`, `all L as v { v == 1 }`, `hidden == 7`, `zz == 1`, `A in L`, `s is empty or A == 3`,
-	`s == "a b"`, `s == "a  b"`, "s == `a\tb`", `s == "a b "`, `s  ==  "a b"`, `"/0" == a`, `"/1" == 2`, `"/0" == 1 or "/0" == 2`, `"/0" is empty`}
+	`s == "a b"`, `s == "a  b"`, "s == `a\tb`", `s == "a b "`, `s  ==  "a b"`, `"/0" == a`, `"/1" == 2`, `"/0" == 1 or "/0" == 2`, `"/0" is empty`,
+	`"/2" == 3`, `"/1" == 2 and "/0" == 1`, `L.0 == 1`, `L.1 == 1 or L.0 == 2`, `2 in L`,
+	`a["b.c"] == 1 and a.b.c == 1`, `a.b.c == 1 and a["b.c"] == 1`, `a["b.c"] == 1 or a.b.c == 1`, `a["b.c"] != 1 and a.b.c != 1`, `a["b.c"] == 1 and A == 1 and a.b.c == 1`,
+	`"/a~1b/c" == 1 and "/a/b/c" == 1`, `"/a/b/c" == 1 or "/a~1b/c" == 1`, `a/b.c == 1 and "/a/b/c" == 1`, `a/b.c == 1 or a.b.c == 1`, `not (a["b.c"] == 1) and not (a.b.c == 1)`,
+	`A == 1 and A == 1`, `A == 1 or A == 1`, `A == 1 and A != 1`, `A == 1 and (A == 1 or s == "a")`, `s matches "^a$" and s matches "^A$"`, `s matches "a" or s matches "(?i)A"`}
 
 var c17NonContainers = []zooEntry{{"nil", nil}, {"int", 5}, {"string", "abc"}, {"bool", true}, {"struct", c17Elem{A: 1}}, {"ptr-to-slice", &[]c17Elem{{A: 1}}}, {"ptr-to-map", &map[string]c17Elem{"x": {A: 1}}},
 	{"ptr-to-struct", &c17Elem{A: 1}}, {"func", func() {}}, {"chan", make(chan int)}, {"float", 1.5}, {"nil-ptr-slice", (*[]int)(nil)}, {"typed-nil-iface", interface{}((*c17Elem)(nil))}}
@@ -135,6 +182,8 @@ func c17Check(c *mon.Ctx, text string, in interface{}, cname string, describe fu
 		}
 	}
 	anyErr := false
+	firstErr := ""
+	errTexts := map[string]bool{}
 	var keep []el
 	for _, e := range elems {
 		o := evaluate(ev, e.v.Interface())
@@ -143,6 +192,12 @@ func c17Check(c *mon.Ctx, text string, in interface{}, cname string, describe fu
 			c.Count("element_panicked")
 			return // C09's subject
 		case "E":
+			if !anyErr && o.Err != nil {
+				firstErr = o.Err.Error()
+			}
+			if o.Err != nil {
+				errTexts[o.Err.Error()] = true
+			}
 			anyErr = true
 		case "T":
 			keep = append(keep, e)
@@ -155,6 +210,29 @@ func c17Check(c *mon.Ctx, text string, in interface{}, cname string, describe fu
 			dd["result"] = fmt.Sprintf("%#v", x.out)
 			dd["error"] = fmt.Sprint(x.err)
 			c.Violation("C17 element-error-not-reported container="+cname, "an element's evaluation error was not returned (with a nil result)", dd)
+			return
+		}
+		// WHICH error: for a slice / array the error of the lowest failing
+		// index; for a map the error of one of its failing entries
+		switch rv.Kind() {
+		case reflect.Slice, reflect.Array:
+			if firstErr != "" && x.err.Error() != firstErr {
+				dd := d()
+				dd["error_returned"], dd["error_of_first_failing_element"] = x.err.Error(), firstErr
+				c.Violation("C17 not-the-first-error container="+cname, "Execute returned an error other than that of the first element whose evaluation fails", dd)
+				return
+			}
+			c.Count("first_error_identity_checked")
+			if len(errTexts) > 1 {
+				c.Count("first_error_identity_checked_among_different_errors")
+			}
+		case reflect.Map:
+			if len(errTexts) > 0 && !errTexts[x.err.Error()] {
+				dd := d()
+				dd["error_returned"] = x.err.Error()
+				c.Violation("C17 error-of-no-element container="+cname, "Execute returned an error that no entry's evaluation produces", dd)
+				return
+			}
 		}
 		return
 	}
@@ -275,6 +353,56 @@ func c17Check(c *mon.Ctx, text string, in interface{}, cname string, describe fu
 
 var c17ZooCache []zooEntry
 
+// long lists and large maps (around the sizes at which an implementation
+// might switch strategy) with a few failing elements whose errors differ: the
+// selection must be exact and in order, and the error must be that of the
+// lowest failing index however the work is scheduled.
+var c17BigSizes = []int{1023, 1024, 2047, 2048, 2049, 4096, 20000, 70000}
+
+func c17Big(c *mon.Ctx, n int) {
+	mk := func(failAt map[int]interface{}) []map[string]interface{} {
+		l := make([]map[string]interface{}, n)
+		for i := range l {
+			l[i] = map[string]interface{}{"A": i % 3, "s": "v"}
+			if v, ok := failAt[i]; ok {
+				if v == nil {
+					delete(l[i], "A")
+				} else {
+					l[i]["A"] = v
+				}
+			}
+		}
+		return l
+	}
+	desc := func(what string) func() string {
+		return func() string { return fmt.Sprintf("%d elements, %s", n, what) }
+	}
+	// no failing element
+	c17Check(c, `A == 1`, mk(nil), fmt.Sprintf("long-list-%d", n), desc("no failing element"))
+	c17Check(c, `A != 1 and s == v`, mk(nil), fmt.Sprintf("long-list-%d", n), desc("no failing element"))
+	// an early failing element (missing key) and many later ones of another kind (a list where a number is expected)
+	for rep := 0; rep < 4; rep++ {
+		fail := map[int]interface{}{n / 20: nil}
+		for i := n / 2; i < n; i += 97 {
+			fail[i] = []interface{}{1}
+		}
+		fail[n-1] = []interface{}{1}
+		c17Check(c, `A == 1`, mk(fail), fmt.Sprintf("long-list-%d", n), desc("failing: missing key at n/20, a list as A from n/2 on"))
+		// the other way round
+		fail2 := map[int]interface{}{n/16 - 1: []interface{}{1}, n - 2: nil, n / 2: nil, n/4 + 1: nil}
+		c17Check(c, `A == 1 or A == 2`, mk(fail2), fmt.Sprintf("long-list-%d", n), desc("failing: a list as A at n/16-1, missing keys later"))
+	}
+	// as a map
+	m := map[int]map[string]interface{}{}
+	for i, e := range mk(nil) {
+		m[i] = e
+	}
+	c17Check(c, `A == 1`, m, fmt.Sprintf("large-map-%d", n), desc("map, no failing entry"))
+	delete(m[n/3], "A")
+	c17Check(c, `A == 1`, m, fmt.Sprintf("large-map-%d", n), desc("map, one failing entry"))
+	c.Count("long_list_scenarios")
+}
+
 func c17Run(c *mon.Ctx, idx int) {
 	if c17ZooCache == nil {
 		c17ZooCache = c17Zoo()
@@ -354,6 +482,10 @@ func c17Run(c *mon.Ctx, idx int) {
 		}
 		return
 	}
+	if k := idx - nz - len(c17NonContainers); k < len(c17BigSizes) {
+		c17Big(c, c17BigSizes[k])
+		return
+	}
 	// random: collections found in seeded documents
 	r := c.RNG(idx)
 	doc := univ.GenObj(r, 3, true)
@@ -392,11 +524,13 @@ func init() {
 		ID: "C17", Level: "exploration",
 		Rule:        "containers: a zoo of 43 Go containers (incl. containers of containers and empty primitive slices) (slices, NAMED slice types, slices of pointers with nil, arrays incl. [0]T, []map, []interface{} with nil / mixed elements, nil and empty slices and maps, maps keyed by string, named string, int, bool, float64, interface{} (keys with equal printed forms such as 1, \"1\", int64(1), true, \"true\"), struct, array and pointer keys) x 27 expressions (some differing only in the whitespace inside a literal), plus collections found in seeded typed documents with element-directed random expressions (some elements erroring). oracle (model-based): expected = elements / entries for which a separately created evaluator's Evaluate is true, in order; result reflect.Type = the slice type (named kept) / []Elem for arrays / the map type; error (with nil result) iff some element errors; deep snapshot of the input (incl. unexported fields, spare capacity) unchanged; overwriting every slot of the result leaves the input unchanged; idempotence; E / not(E) partition; the nil filter returns the very same value (pointer identity for slices/maps); nil, scalars, structs and pointers to containers are errors, not panics. non-trivial = a selection was compared; distinct by (container, expression, input dump)",
 		Assumptions: []string{"Evaluate on an element is the specification of the filter (C01 decides Evaluate itself)"},
-		NumCases:    func(tier string) int { return len(c17Zoo()) + len(c17NonContainers) + tierN(tier, 6000, 300000) },
-		Run:         c17Run,
+		NumCases: func(tier string) int {
+			return len(c17Zoo()) + len(c17NonContainers) + len(c17BigSizes) + tierN(tier, 6000, 300000)
+		},
+		Run: c17Run,
 		Required: func(tier string) []string {
 			return []string{"zoo_containers", "non_containers", "nil_filter_identity_checked", "random_containers", "outcome:error", "outcome:selected", "container:slice", "container:array", "container:map", "named_slice_type_checked",
-				"storage_independence_checked", "aliasing_checked", "filter_history_steps", "idempotence_checked", "partition_checked", "kept:0-of-3", "kept:1-of-3", "kept:2-of-3", "kept:3-of-3"}
+				"storage_independence_checked", "aliasing_checked", "filter_history_steps", "idempotence_checked", "partition_checked", "long_list_scenarios", "first_error_identity_checked", "first_error_identity_checked_among_different_errors", "kept:0-of-3", "kept:1-of-3", "kept:2-of-3", "kept:3-of-3"}
 		},
 	})
 }
